@@ -18,6 +18,8 @@ type commitVerdict struct {
 	accept     bool
 	wellFormed bool
 	counted    int // mask of validators whose for-block signature counts
+	validNil   int // mask of validators with a valid nil entry
+	structural bool
 	why        string
 }
 
@@ -66,11 +68,14 @@ func refVerifyCommit(keys []keyPair, quorum []bool, argID refBlockID, argHeight 
 		case types.BlockIDFlagNil:
 			if !refVerify(keys[i].addr, signBytes(chainID, tag, c.Height, c.Round, refBlockID{Nil: true}, cs.Timestamp), cs.Signature) || a != keys[i].addr {
 				v.wellFormed = false
+			} else {
+				v.validNil |= 1 << uint(i)
 			}
 		default:
 			v.wellFormed = false
 		}
 	}
+	v.structural = structural
 	if structural {
 		if quorum[v.counted&(1<<uint(n)-1)] {
 			v.accept = true
